@@ -20,6 +20,10 @@ CLAIMED = {
    text='Seeded tagged BAMs (sites forced onto bin/job boundaries, sites owned by another job than the read start, filtered records) are counted through the real generate_commands/count_fragments_binned/obtain_counts for every bins_per_job in 1..10 plus whole-contig jobs, each under a seeded SimPool completion order and pool width; the returned dict must equal a one-scan reference model (hence be identical across splits and schedules, total = number of counting records). Sampled inputs and orders: evidence, not proof.',
    note='Trusts SimPool (atomic job bodies, pickled args/results) and the reference model; sites stay within max_fragment_size of their read (documented look-around contract).',
    tech='deterministic simulation: seeded job-partition x worker-completion-order exploration under a simulated process pool, checked against an executable reference model'),
+ 'C18': dict(engine='alleles', cat='exploration', design='5 C18',
+   text='Seeded VCFs x histories of 1..4 process lifetimes that share only the on-disk cache directory; each lifetime draws (lazyLoad,use_cache) from all four combinations, possibly a different select_samples/ignore_conversions/phased than the previous one, and an access sequence with absent contigs/positions and revisits of evicted contigs. Every getAllelesAt/has_location answer must equal the eager cache-less resolver of that configuration and a VCF model on clear-cut sites. Sampled histories: evidence, not proof.',
+   note='Trusts pysam VCF parsing and the clear-cut-site model; no I/O faults on the cache (outside the statement).',
+   tech='deterministic simulation: seeded multi-lifetime histories over durable cache state, relational oracle against the eager mode plus a reference model'),
 }
 NA = {
  'C02': 'Pure function of (strategy layout, read pair): fixed slices of two strings; no stream state, schedule, clock, fault or history for a simulator to choose.',
